@@ -545,6 +545,8 @@ class RefServer:
                     self.auth_state = None
                     self.no(None, b"Authentication failed.")
                     return True
+                if getattr(self, "digest_bad_rspauth", False):
+                    rsp = b"0" * 32  # a server that does not know the password after all: the client has to refuse it
                 if getattr(self, "auth_final_sasl", False):
                     # final data travels with the completion response instead of a further round trip
                     self.auth_state = None
